@@ -24,7 +24,7 @@ func init() {
 	register(&Driver{
 		ID:        "C18",
 		Technique: "exhaustive enumeration of generated expressions (depth <=2 over literals, placeholders, arithmetic / comparison / boolean / ternary / membership / string operators) x configurations, and of value x constraint pairs (variables and structs, zero values included), one real start each; oracle = direct evaluation of the substituted text with expr, and a fresh validator on the bound value (biconditional)",
-		Rule:      "expressions = all generated terms of depth <=2 (thorough: integer terms of depth 3) bound to int / bool / string fields x 3 configurations (one making a modulo-by-zero); validation = 14 typed values (zero values of int, string, bool included) x 12 constraints (single and joined) as validate arguments on variables, expressions feeding a validated field, and structs bound by prefix with validate struct tags; only pairs the validator library accepts as well-typed; non-trivial = expression containing a placeholder, or a pair whose verdict is 'reject'. Families added in later rounds (look-ups inside Init, retries after an abandoned attempt, user extension points at every Order, several containers, odd names / types / values) are listed per part in this file and described in MANIFEST.json (level_claimed.text) and DESIGN §7",
+		Rule:      "expressions = all generated terms of depth <=2 (thorough: integer terms of depth 3) bound to int / bool / string fields x 3 configurations (one making a modulo-by-zero; every configuration also sets one key to the empty string, and 15 expressions write a default on a configured key: the configured value, empty or not, is what the expression sees); validation = 14 typed values (zero values of int, string, bool included) x 12 constraints (single and joined) as validate arguments on variables, expressions feeding a validated field, and structs bound by prefix with validate struct tags; only pairs the validator library accepts as well-typed; non-trivial = expression containing a placeholder, or a pair whose verdict is 'reject'. Families added in later rounds (look-ups inside Init, retries after an abandoned attempt, user extension points at every Order, several containers, odd names / types / values) are listed per part in this file and described in MANIFEST.json (level_claimed.text) and DESIGN §7",
 		Assumptions: []string{
 			"constraints that are ill-typed for the value make the validator library itself panic and are outside the domain",
 			"division (float results) and expressions longer than depth 2 are not covered",
@@ -51,12 +51,16 @@ type c18ExprCase struct {
 }
 
 var c18Cfgs = []map[string]string{
-	{"n1": "1", "n2": "2", "s": "a", "k": "1"},
-	{"n1": "5", "n2": "3", "s": "b", "k": "2"},
-	{"n1": "1", "n2": "0", "s": "a", "k": "2"},
+	{"n1": "1", "n2": "2", "s": "a", "k": "1", "e": ""},
+	{"n1": "5", "n2": "3", "s": "b", "k": "2", "e": ""},
+	{"n1": "1", "n2": "0", "s": "a", "k": "2", "e": ""},
 }
 
 var c18Default = regexp.MustCompile(`\$\{zz:([^${}]*)\}`)
+
+// a default written on a key that is configured (key e: configured as the empty string, which is
+// a value, not an absence): the configured value is taken
+var c18PresentDefault = regexp.MustCompile(`\$\{(n1|n2|s|k|e):[^${}]*\}`)
 
 // c18Subst substitutes innermost placeholders first, until nothing changes (key zz is absent:
 // its default is taken).
@@ -67,6 +71,7 @@ func c18Subst(e string, cfg map[string]string) string {
 			e = strings.ReplaceAll(e, "${"+k+"}", v)
 		}
 		e = c18Default.ReplaceAllString(e, "$1")
+		e = c18PresentDefault.ReplaceAllStringFunc(e, func(m string) string { return cfg[m[2:strings.Index(m, ":")]] })
 		if e == before {
 			return e
 		}
@@ -133,6 +138,10 @@ func c18Exprs(thorough bool) (ints, bools, strs []string) {
 	strs = []string{"'a'+'b'", "'${s}'+'b'", "1>2?'x':'y'", "${n1}<${n2}?'lt':'ge'", "'${s}' in ['a','b']?'in':'out'", "'${s}'+'${s}'", "(${n1}+${n2})>2?'${s}':'z'"}
 	// string literals that carry an escaped quote of their own kind, a quote of the other kind, braces
 	strs = append(strs, `'it\'s ' + '${s}'`, `"say \"hi\" " + '${s}'`, `"it's " + '${s}'`, `'${s}' + 'x\'' + 'y'`, `'a\\' + '${s}'`)
+	// defaults on configured keys (one of them configured as the empty string) are not taken
+	ints = append(ints, "(${n1:9}+1)", "len('${e:abcd}')", "(len('${e:abcd}')+${n2:7})", "len('${s:abcd}')", "${zz:${n1:9}}")
+	bools = append(bools, "'${e:x}'==''", "'${e:x}'=='x'", "'${s:x}'=='${s}'", "len('${e:${s}}')==0", "${n1:9}==${n1}")
+	strs = append(strs, "'${e:-dev}'+'!'", "'${s:none}'+'${e:-dev}'", "'${e:x}'==''?'empty':'dflt'", "'<'+'${e}'+'>'", "'${s:${e:q}}'+'.'")
 	for _, a := range ints[:6+lim] {
 		strs = append(strs, a+">2?'big':'small'")
 	}
@@ -195,7 +204,7 @@ func c18NotAnInt(v any) bool {
 func c18ExprOne(c *core.Ctx, cs c18ExprCase, types map[string]reflect.Type) {
 	{
 		cfg := c18Cfgs[cs.Cfg]
-		doc := fmt.Sprintf("n1: %s\nn2: %s\ns: %s\nk: %s\n", cfg["n1"], cfg["n2"], cfg["s"], cfg["k"])
+		doc := fmt.Sprintf("n1: %s\nn2: %s\ns: %s\nk: %s\ne: \"\"\n", cfg["n1"], cfg["n2"], cfg["s"], cfg["k"])
 		// the tag's value is a Go string literal: backslashes and double quotes of the expression are escaped in it
 		tag := fmt.Sprintf(`value:"#{%s}"`, strings.NewReplacer(`\`, `\\`, `"`, `\"`).Replace(cs.Expr))
 		if cs.Via > 0 {
@@ -631,7 +640,7 @@ func c18Durations(c *core.Ctx) {
 	}
 	Cases(c, gen, func(c *core.Ctx, cs c18DurCase) {
 		cfg := c18Cfgs[cs.Cfg]
-		doc := fmt.Sprintf("n1: %s\nn2: %s\ns: %s\nk: %s\n", cfg["n1"], cfg["n2"], cfg["s"], cfg["k"])
+		doc := fmt.Sprintf("n1: %s\nn2: %s\ns: %s\nk: %s\ne: \"\"\n", cfg["n1"], cfg["n2"], cfg["s"], cfg["k"])
 		ft := reflect.TypeOf(time.Duration(0))
 		if cs.Ptr {
 			ft = reflect.PointerTo(ft)
